@@ -40,7 +40,7 @@ theorem kk_of_same {f : Conn → Option Conn}
     obtain ⟨q0, hq0, he⟩ := hq q hq'
     rw [he]; exact hk.allOpen q0 hq0
 
-theorem kk_cSend (r : Rid) : KeepsK (cSend r) := kk_of_same (by
+theorem kk_cSend (nr : Bool) (r : Rid) : KeepsK (cSend nr r) := kk_of_same (by
   intro k k' h; unfold cSend at h; split at h <;> try contradiction
   simp only [Option.some.injEq] at h; subst h; exact ⟨rfl, rfl, fun q hq => ⟨q, hq, rfl⟩⟩)
 theorem kk_cAge : KeepsK cAge := kk_of_same (by
@@ -75,7 +75,12 @@ theorem kk_cStart (i : Nat) : KeepsK (cStart i) := kk_cSetSt i .queued (fun _ =>
 theorem kk_cHand (i : Nat) : KeepsK (cHand i) := kk_cSetSt i .queued (fun _ => .handed)
 theorem kk_cStartP (i : Nat) : KeepsK (cStartP i) := kk_cSetSt i .handed (fun _ => .running)
 theorem kk_cFin (i : Nat) : KeepsK (cFin i) := kk_cSetSt i .running (fun _ => .finished)
-theorem kk_cWrite (i : Nat) : KeepsK (cWrite i) := kk_cSetSt i .finished (fun k => .wrote (!k.srvClosed))
+theorem kk_of_imp {f g : Conn → Option Conn} (h : ∀ k k', f k = some k' → g k = some k')
+    (hg : KeepsK g) : KeepsK f := fun k k' hf => hg k k' (h k k' hf)
+theorem kk_cWrite (i : Nat) : KeepsK (cWrite i) :=
+  kk_of_imp (cWrite_imp i) (kk_cSetSt i .finished (fun k => .wrote (!k.srvClosed)))
+theorem kk_cSkip (d : Bool) (i : Nat) : KeepsK (cSkip d i) :=
+  kk_of_imp (cSkip_imp d i) (kk_cSetSt i .finished (fun _ => if d then .wrote true else .leaked))
 
 theorem kk_cDec (i : Nat) : KeepsK (cDec i) := kk_of_same (by
   intro k k' h
@@ -189,7 +194,8 @@ theorem kick_step {cfg : Cfg} (hci : cfg.ci = .kickOnly) {s s' : State} (a : Act
         rw [hcl] at hx; simp at hx; subst hx
         exact ⟨by simp [Conn.new], by simp [Conn.new]⟩
       | succ n => rw [hcl] at hx; simp at hx
-  | send c r => exact kick_updConn (kk_cSend r) hn h
+  | send c r => exact kick_updConn (kk_cSend false r) hn h
+  | sendNR c r => exact kick_updConn (kk_cSend true r) hn h
   | accept c =>
     simp only [step] at h
     split at h
@@ -239,6 +245,7 @@ theorem kick_step {cfg : Cfg} (hci : cfg.ci = .kickOnly) {s s' : State} (a : Act
     · exact kick_updConn (kk_cStart i) hn h
   | fin c i => exact kick_updConn (kk_cFin i) hn h
   | write c i => exact kick_updConn (kk_cWrite i) hn h
+  | skip c i => exact kick_updConn (kk_cSkip _ i) hn h
   | dec c i => exact kick_updConn (kk_cDec i) hn h
   | drainClose c => exact kick_updConn kk_cDrainClose hn h
   | shutdownCall =>
